@@ -154,13 +154,16 @@ RT == INSTANCE RetryP WITH Sids <- RKeys, Modes <- {}, AttemptsSet <- {}, Ranges
         mode <- rmode, A <- rA, AF <- rAF, ranges <- rranges, B <- rB, cnt <- rcnt, last <- rlast
 rvars == <<rmode, rA, rAF, rranges, rB, rcnt, rlast>>
 RetryRanges == <<<<500, 599>>>>          \* every status Filter of the generated configurations has this range (RetryP has one `ranges`)
+\* budgets are kept for the (processor, sequence) pairs met so far only; a pair not met yet has its full budget
+Bud(s) == IF RetryA[s[1]] > 0 THEN RetryA[s[1]] ELSE 0
+BOf(s) == IF s \in DOMAIN rB THEN rB[s] ELSE {Bud(s)}
+CntOf(s) == IF s \in DOMAIN rcnt THEN rcnt[s] ELSE 0
 RetryInit ==
     /\ rmode = "flows" /\ rA = 0 /\ rranges = RetryRanges
-    /\ rAF = [s \in RKeys |-> RetryA[s[1]]]
-    /\ rB = [s \in RKeys |-> {RetryA[s[1]]}] /\ rcnt = [s \in RKeys |-> 0] /\ rlast = [ev |-> "reset"]
+    /\ rAF = <<>> /\ rB = <<>> /\ rcnt = <<>> /\ rlast = [ev |-> "reset"]
 RetryReset ==
-    /\ rB' = [s \in RKeys |-> {RetryA[s[1]]}] /\ rcnt' = [s \in RKeys |-> 0] /\ rlast' = [ev |-> "reset"]
-    /\ UNCHANGED <<rmode, rA, rAF, rranges>>
+    /\ rAF' = <<>> /\ rB' = <<>> /\ rcnt' = <<>> /\ rlast' = [ev |-> "reset"]
+    /\ UNCHANGED <<rmode, rA, rranges>>
 FlowOfProc(k) == Cfg.flows[CHOOSE i \in 1..Len(Cfg.flows) : HasProc(Cfg.flows[i], k)].name
 \* the Retry processors that had the chance to see transaction e: those of the flows whose response side ran
 RetrySeen(e) == {k \in DOMAIN RetryA \ {"-"} : FlowOfProc(k) \in UserFlowsDir(e.seq, "res")}
@@ -171,16 +174,18 @@ RetryOut(e, k) == LET I == {i \in 1..Len(e.seq) : e.seq[i].sid = "" /\ e.seq[i].
 \* that nobody carries out (the action is dropped).  Modelled as it is: for such a walk the status counts as inside the conditions
 \* exactly when the Retry processor was reached.
 RetryCond(e, k) == IF e.dir = "res" THEN RT!InCond(e.x.status) ELSE RetryOut(e, k) # "none"
-RetryNext(e) == [s \in RKeys |-> IF s[2] = e.sq /\ s[1] \in RetrySeen(e)
-                                 THEN RT!StepB(rB[s], RetryCond(e, s[1]), FALSE, RetryOut(e, s[1]), RT!BudOf(s)) ELSE rB[s]]
-RetryAccepted(e) == \A s \in RKeys : RetryNext(e)[s] # {}
+RetryTouched(e) == {<<k, e.sq>> : k \in RetrySeen(e)}
+RetryNew(e, s) == RT!StepB(BOf(s), RetryCond(e, s[1]), FALSE, RetryOut(e, s[1]), Bud(s))
+RetryAccepted(e) == \A s \in RetryTouched(e) : RetryNew(e, s) # {}
 RetryStep(e) ==
-    /\ rB' = RetryNext(e)
-    /\ rcnt' = [s \in RKeys |-> IF s[2] = e.sq /\ s[1] \in RetrySeen(e) THEN (IF RetryOut(e, s[1]) = "retry" THEN rcnt[s] + 1 ELSE 0) ELSE rcnt[s]]
+    LET T == RetryTouched(e) IN
+    /\ rB' = [s \in DOMAIN rB \cup T |-> IF s \in T THEN RetryNew(e, s) ELSE rB[s]]
+    /\ rcnt' = [s \in DOMAIN rB \cup T |-> IF s \in T THEN (IF RetryOut(e, s[1]) = "retry" THEN CntOf(s) + 1 ELSE 0) ELSE rcnt[s]]
+    /\ rAF' = [s \in DOMAIN rB \cup T |-> RetryA[s[1]]]
     /\ rlast' = [ev |-> "resp", s |-> e.sq]
-    /\ UNCHANGED <<rmode, rA, rAF, rranges>>
+    /\ UNCHANGED <<rmode, rA, rranges>>
 \* the statement is silent about time: any passage of time may make the gateway forget a sequence (RetryP!Adv)
-RetryAdv == /\ rB' = [s \in RKeys |-> rB[s] \cup {RT!BudOf(s)}] /\ rcnt' = [s \in RKeys |-> 0] /\ rlast' = [ev |-> "adv"]
+RetryAdv == /\ rB' = [s \in DOMAIN rB |-> rB[s] \cup {Bud(s)}] /\ rcnt' = [s \in DOMAIN rB |-> 0] /\ rlast' = [ev |-> "adv"]
             /\ UNCHANGED <<rmode, rA, rAF, rranges>>
 \* a Filter with a status_code_range on the response side answers "hit" exactly for the statuses of its range (registry:
 \* "filtering by status code range"); on the walk of an early response see G6
